@@ -940,6 +940,29 @@ async fn exec_op(me: usize, opi: usize, op: &ClientOp, table: &mut Table, all: &
                 polls,
             );
         }
+        ClientOp::JoinPollDrop { h } => {
+            let i = need!(me, opi, table, *h, |k| k == K::Owning);
+            let held = table[i].as_mut().unwrap();
+            begin(me, opi, OpWhat::JoinStash, Some(held), None);
+            let H::Owning(o) = &mut held.h else { unreachable!() };
+            let mut f: Pin<Box<dyn Future<Output = ()>>> = match o {
+                AnyOwning::A0(o) => {
+                    let f = o.join();
+                    Box::pin(async move {
+                        let _ = f.await;
+                    })
+                }
+                AnyOwning::A1(o) => {
+                    let f = o.join();
+                    Box::pin(async move {
+                        let _ = f.await;
+                    })
+                }
+            };
+            let done = futures::future::poll_fn(|cx| Poll::Ready(f.as_mut().poll(cx).is_ready())).await;
+            drop(f);
+            end(me, opi, OpRes::Bool(done), 0);
+        }
         ClientOp::JoinLazyDetach { h } => {
             let i = need!(me, opi, table, *h, |k| k == K::Owning);
             let mut held = table[i].take().unwrap();
